@@ -63,7 +63,7 @@ def parse_kv(tokens):
     return opts, rest
 
 
-def parse_spec(path):
+def parse_spec(path, follow_imports=True):
     u = UnitSpec()
     cur_fn = None
     cur_sec = None
@@ -107,7 +107,10 @@ def parse_spec(path):
                 # @import other.spec fnA fnB ... : the functions' contracts (their @sig) are taken from another unit's spec
                 # and ASSUMED here (emitted as external_body); they are proved in that other unit.
                 flush()
-                other = parse_spec(os.path.join(os.path.dirname(path), toks[1]))
+                cur_fn = None
+                if not follow_imports:   # units may import from each other (screen <-> sgr): one level only
+                    continue
+                other = parse_spec(os.path.join(os.path.dirname(path), toks[1]), follow_imports=False)
                 for nm in toks[2:]:
                     cand = [f for f in other.fns if f.name == nm]
                     if not cand:
@@ -473,9 +476,26 @@ def build_unit(spec_path, repo, contracts_dir, shim_table, force_extern=None, va
             a = bodies[0][0] - len(header)
             brace = bodies[0][0]
             b = bodies[0][1] + 1
+        elif fs.opts.get('staticfn'):
+            # static-to-fn: the initialiser block of `[pub] static ref NAME: TYPE = { BLOCK };` (inside lazy_static!)
+            # becomes  fn NAME_init() -> TYPE { BLOCK }  (the block is verbatim; the header is the only woven text)
+            mm = re.search(r'\bstatic\s+ref\s+%s\s*:\s*([^=;{]+?)\s*=\s*\{' % re.escape(fs.src_name), s.mask)
+            if not mm:
+                raise WeaveError('lost anchor: static ref %s not found in %s' % (fs.src_name, rel))
+            ob = mm.end() - 1
+            cb = match_close(s.mask, ob)
+            b0 = s.text[ob:cb + 1]
+            ty = s.text[mm.start(1):mm.end(1)]
+            header = shim_wrap('static-to-fn', '', 'fn %s_init() -> (r: %s) ' % (fs.src_name, ty))
+            hdr = 'impl static-initialiser'
+            text = header + b0
+            a = ob - len(header)
+            brace = ob
+            b = cb + 1
         else:
             hdr, a, brace, b = s.fn_in_impl(impl_re, fs.src_name)
             text = s.text[a:b]
+        blockfn = bool(fs.opts.get('closurefn') or fs.opts.get('staticfn'))
         degraded = None
         woven = None
         if not fs.extern and fs.name not in force_extern:
@@ -495,11 +515,11 @@ def build_unit(spec_path, repo, contracts_dir, shim_table, force_extern=None, va
                 sig = sig[:arrow + 2] + shim_wrap('name-return', sig[arrow + 2:], ' (%s: %s) ' % (fs.opts['ret'], sig[arrow + 2:].strip()))
             woven = '#[verifier::external_body]\n' + sig + block(fs.name, 'sig', secs[0] if secs else '') + \
                 shim_wrap('extern-body', text[brace - a:], '{ unimplemented!() }')
-        if strip_woven(woven).replace('#[verifier::external_body]\n', '') != (text if not fs.opts.get('closurefn') else b0):
+        if strip_woven(woven).replace('#[verifier::external_body]\n', '') != (text if not blockfn else b0):
             open('/tmp/weave_roundtrip_a.txt', 'w').write(strip_woven(woven))
             open('/tmp/weave_roundtrip_b.txt', 'w').write(text)
             raise WeaveError('round-trip mismatch in %s' % fs.name)
-        roundtrip.append((rel, text if not fs.opts.get('closurefn') else b0))
+        roundtrip.append((rel, text if not blockfn else b0))
         spin = '' if (fs.extern or degraded) else '/*@w<*/#[verifier::spinoff_prover]/*@w>*/\n'
         if fs.opts.get('nodecreases') and not (fs.extern or degraded):
             spin += '/*@w<*/#[verifier::exec_allows_no_decreases_clause]/*@w>*/\n'
